@@ -15,8 +15,23 @@ def obligations(tier):
                     claim="callback_readdata from any state satisfying its precondition (remaining read fits the limit): body accumulation stays inside the allocation (capped realloc), no assertion failure, waits for min(remaining, 1 MiB), at most one callback / wait / hand-over", **common))
     obs.append(dict(name="toeof-and-content-length-stages", entry="h_toeof_gotclen", defs=["NMAX=%d" % nm], replace=["callback_readdata:stub_readdata"],
                     claim="callback_read_toeof and get_body_gotclen: oversized bodies reported as (size_t)(-1) with no buffer, otherwise within the limit; no assertion failure", **common))
+    REP = ["callback_chunkedheader:stub_chunkhdr", "get_body_gotclen:stub_gotclen", "callback_read_toeof:stub_toeof", "callback_read_header:stub_readheader"]
+    REPP = REP + ["findeol:stub_findeol"]
+    SHAPES = [("blank", [0]), ("status13", [13]), ("status13-h4", [13, 4]), ("status15-h3-h6", [15, 3, 6]), ("status13-clen17", [13, 17]), ("status13-te26", [13, 26]), ("status13-te26-clen17", [13, 26, 17]), ("status9-h1", [9, 1])]
+    if T: SHAPES += [("status13-h0", [13, 0]), ("status13-h5-h5-h5", [13, 5, 5, 5]), ("status20-clen19", [20, 19]), ("status13-clen17-te26", [13, 17, 26])]
+    for nm_, sh in SHAPES:
+        n = sum(sh) + 2 * len(sh) + 2
+        obs.append(dict(name="header-parse-stage-" + nm_, harness="hdr.c", entry="h_header", defs=["N=%d" % n, "EXTRA=2", "SHAPE={%s-1}" % "".join("%d," % x for x in sh)], replace=REPP, unwind=max(n + 8, 20), backends=["cadical"], timeout=1800 if T else 280,
+                        claim="gotheaders on every header block with line lengths %s (CR LF exactly at the line ends, all other bytes symbolic): no access outside the data, no reachable assertion failure, exactly the block consumed, status in 100..599 on every path that goes on, at most one outcome, a discarded 1xx block restarts the scan at offset 0" % sh,
+                        bounds="line lengths %s (%d bytes)" % (sh, n), stubs=["netbuf -> exact-size object", "findeol -> answers from the fixed line structure (real findeol: separate obligation)", "sscanf/strcspn/strspn/strstr -> C models validated against glibc", "body stages and 1xx re-entry -> recording stubs"]))
+    obs.append(dict(name="findeol", harness="hdr.c", entry="h_findeol", defs=["N=8"], unwind=12, flags=["--object-bits", "10"], backends=["cadical"], timeout=1800 if T else 280,
+                    claim="findeol == offset of the first CR LF or buflen, on every buffer of 0..7 bytes (exact-size objects)", bounds="<= 7 bytes", stubs=[]))
+    for n in ([0, 3, 4, 5, 8, 11] if not T else list(range(0, 15))):
+        obs.append(dict(name="header-scan-stage-n%d" % n, harness="hdr.c", entry="h_scan", defs=["NSCAN=%d" % n], replace=["gotheaders:stub_gotheaders"], unwind=n + 8, backends=["cadical"], timeout=1800 if T else 280,
+                        claim="callback_read_header on %d buffered bytes from an arbitrary valid scan position: the block up to the FIRST blank line is handed to the parser; otherwise it waits for one more byte with the scan position still valid; failure/EOF => failure callback" % n,
+                        bounds="%d buffered bytes" % n, stubs=["gotheaders -> recording stub"]))
     return obs
-SELFTESTS = [dict(name="strto-models-vs-glibc", srcs=["/verif/models/selftest_strto.c"], cflags=["-I/verif/models"], what="strto models equal glibc on 3,000,000 strings")]
+SELFTESTS = [dict(name="str-models-vs-glibc", srcs=["/verif/models/selftest_str.c"], cflags=["-I/verif/models"], what="strcspn/strspn/strstr/stpcpy/sscanf(HTTP status line) models equal glibc on 2,000,000 strings"), dict(name="strto-models-vs-glibc", srcs=["/verif/models/selftest_strto.c"], cflags=["-I/verif/models"], what="strto models equal glibc on 3,000,000 strings")]
 TRUSTED = ["CBMC 6.11 C semantics", "cadical", "models/libc_strto.c"]
 ASSUMPTIONS = ["header parsing (callback_read_header, gotheaders), request construction and whole-stream runs have no obligations: that part of C08 is NOT decided here", "TLS variant outside the claim"]
 EXPLANATION = ""
